@@ -161,7 +161,9 @@ func (s *Set) getTemplate(templatePath string, cacheAfterParsing bool, parents .
 
 	t, err = s.getTemplateFromLoader(templatePath, cacheAfterParsing, parents...)
 	if err == nil && cacheAfterParsing && !s.developmentMode {
-		s.cache.Put(templatePath, t)
+		// t.Name is the path the template was found under (templatePath plus one of the extensions),
+		// which is one of the keys getTemplateFromCache() probes, whatever the list of extensions is
+		s.cache.Put(t.Name, t)
 	}
 	return t, err
 }
